@@ -17,6 +17,27 @@ RespVerdict(o) ==
        THEN "known=Dev_ResponseCodeUnchecked"
   ELSE IF o.outcome = "ok" THEN "viol-response-delivered-as-a-different-one"
   ELSE "viol-carriable-response-not-delivered"
+Range(s) == {s[i] : i \in 1..Len(s)}
+DeclOf(d) == [exact |-> Range(d.exact), pats |-> Range(d.pats), dflt |-> d.dflt]
+\* a response operation with any declared set (kind "respd"): d, variant v, code k, message
+RespDVerdict(o) ==
+  LET d == DeclOf(o.d) IN
+  IF RespOKD(d, o.v, o.k, o.msg, o.outcome, o.v2, o.k2, o.msg2) THEN "ok"
+  ELSE IF "Dev_ResponseCodeUnchecked" \in KnownDeviations /\ o.v.kind # "code" /\ ~CarriableD(d, o.v, o.k)
+          /\ o.outcome = "ok" /\ o.v2 = ImplRespD(d, o.v, o.k)[1] /\ (o.v2.kind # "code" => o.k2 = ImplRespD(d, o.v, o.k)[2])
+       THEN "known=Dev_ResponseCodeUnchecked"
+  ELSE IF o.outcome = "ok" THEN "viol-response-delivered-as-a-different-one"
+  ELSE "viol-carriable-response-not-delivered"
+\* a body with several declared media entries (kind "media"): dir req | resp, declared set D,
+\* the entry e the value is a variant of, the type ct it travels as, its payload
+MediaVerdict(o) ==
+  LET D == Range(o.D) IN
+  IF MediaOK(D, o.e, o.ct, o.payload, o.outcome, o.e2, o.ct2, o.payload2) THEN "ok"
+  ELSE IF "Dev_ContentTypeOverridesVariant" \in KnownDeviations /\ o.dir = "resp" /\ ~MediaCarriable(D, o.e, o.ct)
+          /\ ImplMediaOverride(D, o.e, o.ct, o.outcome, o.e2, o.ct2)
+       THEN "known=Dev_ContentTypeOverridesVariant"
+  ELSE IF o.outcome = "ok" THEN "viol-body-delivered-as-another-media-variant-or-changed"
+  ELSE "viol-carriable-media-variant-not-delivered"
 Verdict(o) ==
   CASE o.kind = "param" ->
          IF ~o.others THEN "viol-another-parameter-of-the-call-changed"
@@ -31,6 +52,13 @@ Verdict(o) ==
     \* a streamed (application/octet-stream) request and response body: the bytes, unchanged
     [] o.kind = "stream" -> IF o.outcome = "ok" /\ o.got = o.sent /\ o.rgot = o.rsent THEN "ok" ELSE "viol-streamed-body-delivered-changed"
     [] o.kind = "resp" -> RespVerdict(o)
+    [] o.kind = "respd" -> RespDVerdict(o)
+    [] o.kind = "media" -> MediaVerdict(o)
+    \* a webhook operation (header parameter, JSON body, JSON response) through the generated
+    \* WebhookClient / WebhookServer: everything given arrives, everything returned comes back
+    [] o.kind = "hook" -> IF o.outcome = "ok" /\ o.gotp = o.sentp /\ o.mwp = o.sentp /\ o.gotb = o.sentb /\ o.mwb = o.sentb /\ o.rgot = o.rsent THEN "ok"
+                          ELSE IF o.outcome \in {"client_err", "refused_4xx"} /\ ~o.core THEN "ok"
+                          ELSE "viol-webhook-exchange-changed-a-value"
 VARIABLE l
 Init == l = 0
 Next == l < Len(Obs) /\ l' = l + 1 /\ Report(l', Verdict(Obs[l']))
